@@ -3,12 +3,16 @@
 package c11
 
 import (
+	"encoding/json"
 	"fmt"
+	"net"
+	"reflect"
 	"math/rand"
 	"strconv"
 	"strings"
 	"time"
 
+	"github.com/sergeii/swat4master/internal/core/entities/addr"
 	"github.com/sergeii/swat4master/verifharness/internal/core"
 	"github.com/sergeii/swat4master/verifharness/internal/storeops"
 	"github.com/sergeii/swat4master/verifharness/internal/world"
@@ -42,6 +46,37 @@ func run(items []string) []string {
 			results = append(results, "-")
 			continue
 		}
+		if len(it) > 1 && it[0] == 'L' && strings.IndexByte(it, '|') < 0 {
+			// L<addr>: the stored record of <addr> is rewritten in the format the released program writes — member names as
+			// pinned in pinnedJSON below, not whatever the struct tags of the tree under test say now: what a previous run
+			// (release) left in the store must still read back as the same server.  Not a repository call.
+			host, port, _ := strings.Cut(it[1:], ":")
+			pn, _ := strconv.Atoi(port)
+			if svr, err := p.Servers.Get(p.Context(), addr.NewForTesting(net.ParseIP(host), pn)); err == nil {
+				w.MR.HSet("servers:items", it[1:], string(pinnedJSON(reflect.ValueOf(svr))))
+			}
+			results = append(results, "-")
+			continue
+		}
+		if len(it) > 1 && (it[0] == 'F' || it[0] == 'R') && strings.IndexByte(it, '|') < 0 {
+			// F<addr>: the stored record of <addr> is rewritten as another release of the program would have written it: the same
+			// JSON with extra members this release does not know (top level and nested).  R<ns>: time passes in the storage
+			// service itself (key time-to-live), not only on the application's clock.  Neither is a repository call: the
+			// registry and the queue must behave as if nothing had happened.
+			if it[0] == 'F' {
+				if raw := w.MR.HGet("servers:items", it[1:]); strings.HasPrefix(raw, "{") {
+					raw = `{"ZzRegion":{"code":"eu","n":[1,2]},` + raw[1:]
+					raw = strings.Replace(raw, `"Info":{`, `"Info":{"ZzNewField":"x",`, 1)
+					raw = strings.Replace(raw, `"Details":{`, `"Details":{"ZzMore":null,`, 1)
+					w.MR.HSet("servers:items", it[1:], raw)
+				}
+			} else {
+				ns, _ := strconv.ParseInt(it[1:], 10, 64)
+				w.MR.FastForward(time.Duration(ns))
+			}
+			results = append(results, "-")
+			continue
+		}
 		results = append(results, storeops.RunCall(p, it))
 	}
 	return []string{"res=" + strings.Join(results, ";"), "dump=" + strings.Join(w.Dump(), ";")}
@@ -67,6 +102,12 @@ func bigRegistry(rng *rand.Rand, n int, emit core.Emit) {
 		}
 		// every record carries 1–3 players (a fetch that decodes into reused memory mixes up neighbours' lists)
 		items = append(items, fmt.Sprintf("add|%s/10481/%d/0/%d/p%d|refuse", a, st, epoch-int64(i%5)*256000, 1+(i*7)%3))
+	}
+	for i := 0; i < n; i += 1 + n/7 {
+		items = append(items, fmt.Sprintf("F10.%d.%d.%d:10480", i/65536, i/256%256, i%256))
+	}
+	for i := 1; i < n; i += 1 + n/5 {
+		items = append(items, fmt.Sprintf("L10.%d.%d.%d:10480", i/65536, i/256%256, i%256))
 	}
 	items = append(items, "count", "countby", "filter|0|0|z|z|z|z", "filter|2|0|z|z|z|z", "filter|6|0|z|z|z|z", "filter|8|0|z|z|z|z", "filter|0|8|z|z|z|z", "filter|1|0|z|z|z|z",
 		fmt.Sprintf("filter|2|0|%d|z|z|z", epoch-2*256000), fmt.Sprintf("filter|0|0|z|%d|z|z", epoch-2*256000))
@@ -101,7 +142,7 @@ func bigQueue(n int, emit core.Emit) {
 		}
 		items = append(items, fmt.Sprintf("penq|10.%d.%d.%d:10480|10481|%d|%d|3|%d|%s", i/65536, i/256%256, i%256, i%2, i%4, epoch-int64(n-i)*256, exp))
 	}
-	items = append(items, "t512000", fmt.Sprintf("ppop|%d", n/2), fmt.Sprintf("ppop|%d", n), "ppop|1")
+	items = append(items, "t512000", "R100000000000000", fmt.Sprintf("ppop|%d", n/2), fmt.Sprintf("ppop|%d", n), "ppop|1")
 	emit("hist", strings.Join(items, ","))
 }
 
@@ -153,6 +194,9 @@ func gen(rng *rand.Rand, tier core.Tier, emit core.Emit) {
 					refreshed = fmt.Sprint(t)
 					times = append(times, t)
 				}
+				if rng.Intn(14) == 0 { // a refresh time before 1970 (negative nanoseconds): scores are not bounded below by 0
+					refreshed = fmt.Sprint(-256 * int64(1+rng.Intn(1000)))
+				}
 				res := []string{"refuse", "accept", "merge", "over"}[rng.Intn(4)]
 				players := ""
 				if rng.Intn(3) == 0 {
@@ -161,6 +205,15 @@ func gen(rng *rand.Rand, tier core.Tier, emit core.Emit) {
 				items = append(items, fmt.Sprintf("%s|%s/%d/%d/%d/%s%s|%s", kind, a, 10000+rng.Intn(5), rng.Intn(512), v, refreshed, players, res))
 				vers[a] += 1 // rough upper estimate, only steers the choice of caller versions
 			case r < 11:
+				if rng.Intn(4) == 0 {
+					items = append(items, "F"+a) // the record as another release would have left it (unknown JSON members)
+				}
+				if rng.Intn(4) == 0 {
+					items = append(items, "L"+a) // the record as the released program writes it
+				}
+				if rng.Intn(40) == 0 {
+					items = append(items, "R100000000000000") // more than a day passes in the storage service
+				}
 				items = append(items, "get|"+a)
 			case r < 12:
 				items = append(items, []string{"count", "countby"}[rng.Intn(2)])
@@ -168,6 +221,9 @@ func gen(rng *rand.Rand, tier core.Tier, emit core.Emit) {
 				bound := func() string {
 					if rng.Intn(3) == 0 {
 						return "z"
+					}
+					if rng.Intn(10) == 0 {
+						return []string{"0", "-256", "-256000", "256"}[rng.Intn(4)]
 					}
 					return fmt.Sprint(times[rng.Intn(len(times))] + int64(rng.Intn(3)-1)*256)
 				}
@@ -188,5 +244,62 @@ func gen(rng *rand.Rand, tier core.Tier, emit core.Emit) {
 			}
 		}
 		emit("hist", strings.Join(items, ","))
+	}
+}
+
+// pinnedJSON renders a stored entity in the release's storage format, independently of the struct tags of the tree under
+// test: an object member is named after its Go field, except the two members of an address ("ip", "port"); arrays and
+// slices are JSON arrays (nil: null), times RFC 3339 with nanoseconds, everything else as encoding/json writes the value.
+func pinnedJSON(v reflect.Value) []byte {
+	if v.Type() == reflect.TypeOf(time.Time{}) {
+		b, _ := json.Marshal(v.Interface())
+		return b
+	}
+	switch v.Kind() {
+	case reflect.Struct:
+		var sb strings.Builder
+		sb.WriteByte('{')
+		n := 0
+		for i := 0; i < v.NumField(); i++ {
+			f := v.Type().Field(i)
+			if !f.IsExported() {
+				continue
+			}
+			name := f.Name
+			if v.Type() == reflect.TypeOf(addr.Addr{}) {
+				name = strings.ToLower(name)
+			}
+			if n > 0 {
+				sb.WriteByte(',')
+			}
+			n++
+			k, _ := json.Marshal(name)
+			sb.Write(k)
+			sb.WriteByte(':')
+			sb.Write(pinnedJSON(v.Field(i)))
+		}
+		sb.WriteByte('}')
+		return []byte(sb.String())
+	case reflect.Slice, reflect.Array:
+		if v.Kind() == reflect.Slice && v.IsNil() {
+			return []byte("null")
+		}
+		var sb strings.Builder
+		sb.WriteByte('[')
+		for i := 0; i < v.Len(); i++ {
+			if i > 0 {
+				sb.WriteByte(',')
+			}
+			sb.Write(pinnedJSON(v.Index(i)))
+		}
+		sb.WriteByte(']')
+		return []byte(sb.String())
+	case reflect.Int, reflect.Int8, reflect.Int16, reflect.Int32, reflect.Int64:
+		return []byte(strconv.FormatInt(v.Int(), 10))
+	case reflect.Uint, reflect.Uint8, reflect.Uint16, reflect.Uint32, reflect.Uint64:
+		return []byte(strconv.FormatUint(v.Uint(), 10))
+	default:
+		b, _ := json.Marshal(v.Interface())
+		return b
 	}
 }
